@@ -1114,8 +1114,19 @@ def main():
                   "Production build: a second driver built with -tags 'verif docker' (MAX_USERS = 2 000 000) runs the same kinds of histories on a sparse 1 GB .PASSWDS (one real LoadUHash cold "
                   "load per quick run, the other cases put the planted balances into the segment directly) over slots {1, 2, 65535, 65536, 65537, 65538, 70000, 1000000, MAX-1, MAX} and random "
                   "slots above 65 536; after every step EVERY non-zero balance of the 2 000 000-entry segment and EVERY non-zero byte of the file (data extents) are compared with arithmetic, and the "
-                  "returns / balances / Money fields with the size-generic model" % (maxu * recsz),
-             assumptions=["one process at a time updates a balance (concurrent updates are outside the property)", ".PASSWDS exists with MAX_USERS records (short files are exercised for the correspondence only)",
+                  "returns / balances / Money fields with the size-generic model. Symbolic link: the same kinds of histories (every slot x a 16-operation history with a refused write, a write-back, a planted "
+                  "file balance; generated money / writer / disagreement histories) run with BBSHOME/.PASSWDS being an absolute link into another directory, a relative link, or a chain of two links; observed "
+                  "through the name, judged by the same predicate, compared with the model's run of the same history; the name must still be the link afterwards. Several goroutines of one process (kind 6): "
+                  "each goroutine works on slots of its own; lock-step cases (every adjacent pair of slots and (MAX_USERS, 1) x set / credit / debit / clamping debit; generated cases with 2..16 goroutines, an "
+                  "invalid slot among them) hold every round still inside open(2) with a read lease (fcntl F_SETLEASE) on .PASSWDS until every goroutine of the round is blocked in openat or has returned, then "
+                  "let all go; free-running cases (4-8 goroutines x 50 rounds; more in the thorough tier) add the unheld interleavings; after every round returns, every balance of the segment and every changed "
+                  "byte of the file are compared with per-slot arithmetic (operations on different slots commute: C20_interleaving_independent), and returns + final state with the model's run of the operations as one history" % (maxu * recsz),
+             assumptions=["two concurrent updates of the SAME balance are outside the property; concurrent operations on DIFFERENT users inside one process are exercised (kind 6), not proved: the theorems treat an operation "
+                          "as a whole (any interleaving of whole operations is a history; C20_interleaved_whole_operations), that the Go code shares no state between two calls of one process is VALIDATION - "
+                          "deterministically at the schedule point 'every goroutine has done what precedes its open of .PASSWDS, none has written' (held by a kernel read lease; needs a file system with leases "
+                          "and /proc/self/task/*/syscall - evidence coverage 'parallel' says in how many cases every round was held), and by free-running rounds at whatever interleavings the machine produces; other schedule points "
+                          "inside an operation (between seek and write, inside logrus) are reached only by the free-running rounds; several goroutines are not run on the docker build or through the record writers",
+                          "how the name .PASSWDS resolves (symbolic links, absolute / relative / chained) is kernel behaviour: the theorems speak about the bytes behind the name, the link layouts are validation (default build only)", ".PASSWDS exists with MAX_USERS records (short files are exercised for the correspondence only)",
                           "a refused write is produced by renaming .PASSWDS away or by pointing its path to /dev/full for the duration of one call; a failure in the middle of the 4-byte write (torn write) is not produced",
                           "docker build: records of the sparse .PASSWDS other than the planted ones are zero (free slots, balance 0); LoadUHash skips the Money of free slots beyond the first 1000 free ones, "
                           "so a FREE slot with a left-over balance far into the file starts in disagreement after a cold load - that start state is represented by the planted-file-balance operation, not by a real load",
